@@ -278,6 +278,16 @@ func (c *meterConc) exec() (run meterConcRun, failure string) {
 		}
 	}()
 
+	// the model may register its subscription asynchronously (PullPublication does): the seed event tells
+	// that it is in place, so that every later commit is seen as an event
+	for dl := time.Now().Add(2 * time.Second); time.Now().Before(dl); time.Sleep(20 * time.Microsecond) {
+		evMu.Lock()
+		n := len(run.events)
+		evMu.Unlock()
+		if n >= 1 {
+			break
+		}
+	}
 	run.calls = make([][]concCallOut, len(c.Progs))
 	ths := make([]*cthread, len(c.Progs))
 	inCall := make([]bool, len(c.Progs))
@@ -355,12 +365,22 @@ func (c *meterConc) exec() (run meterConcRun, failure string) {
 				}
 			}
 		}
-		for dl := time.Now().Add(2 * time.Second); time.Now().Before(dl); time.Sleep(50 * time.Microsecond) {
+		// at most `want` events are in flight (a write that changes nothing publishes none): wait for them,
+		// or until the stream has been quiet for a while
+		quiet, last := 0, -1
+		for dl := time.Now().Add(2 * time.Second); time.Now().Before(dl); time.Sleep(100 * time.Microsecond) {
 			evMu.Lock()
 			n := len(run.events)
 			evMu.Unlock()
 			if n >= want {
 				break
+			}
+			if n == last {
+				if quiet++; quiet >= 30 {
+					break
+				}
+			} else {
+				quiet, last = 0, n
 			}
 		}
 		run.final = catch(func() string { v, _ := m.GetMeterReading(); return readingStr(v) })
